@@ -58,6 +58,25 @@ def gen_strings(env, tables, exhaustive_len, n_random):
         else:
             s = "".join(rng.choice(uni) if rng.random() < 0.3 else rng.choice(cp) for _ in range(n))
         out.append((s, rng.random() < 0.1))
+    # strings built from the lexer's OWN constants and regex patterns (a special case keyed on
+    # a fixed sequence of characters shows only on strings holding that sequence)
+    try:
+        from . import nasty
+        d = nasty.source_dictionary(V.REPO, ["vyxal/lexer.py"])
+        frags = [f for f in d["fragments"] if len(f) <= 6]
+        ds = nasty.dictionary_strings(rng, frags, priority=d["from_regex"], filler=list("a1 `\n"),
+                                      pair_cap=max(400, n_random // 2), n_triples=max(100, n_random // 8))
+        # regex-derived fragments also inside each kind of literal
+        for f in d["from_regex"][:12]:
+            for g in d["from_regex"][:12]:
+                for wrap in ("`%s`", "\u00ab%s\u00ab", "\u00bb%s\u00bb", "#%s\n1"):
+                    ds.append((wrap % (f + "a" + g), (f, g)))
+        for text, _ in ds:
+            out.append((text, False))
+        env.note("lexer_dictionary", {"fragments": len(frags), "from_regex": d["from_regex"][:20], "strings": len(ds),
+                                      "unreadable": d["unreadable"]})
+    except Exception as e:  # noqa: BLE001 - the dictionary is an extra stream, never a reason to stop
+        env.note("lexer_dictionary", f"unavailable: {type(e).__name__}: {e}")
     return out
 
 
